@@ -72,7 +72,7 @@ theorem RS.mono {lo hi lo' hi'} {e : RExpr} (h : RS src lo hi e) (h1 : lo' ≤ l
 theorem rgOk_le {a b : Nat} (h : rgOk src (a, b)) : a ≤ b := ((rgOk_iff src a b).mp h).1
 
 theorem Res.intro' {lo hi} {e : RExpr} (rg : Rg) (hr : e.range = rg) (h1 : rgOk src rg) (h2 : lo ≤ rg.1)
-    (h3 : rg.2 ≤ hi) (h4 : sibsOk e.kind e.children = true) (h5 : okListX src (some rg) e.children = true) :
+    (h3 : rg.2 ≤ hi) (h4 : sibsOk e.kind e.children = true) (h5 : okList src (some rg) e.children = true) :
     Res src lo hi e := by
   subst hr; exact ⟨h1, h2, h3, h4, h5⟩
 
@@ -129,12 +129,12 @@ theorem allSlot_kwTrees : ∀ ks : List RKeyword, AllSlot "keywords" (kwTrees ks
 
 theorem kw_node_ok {rg : Rg} {v : RExpr} {a b : Nat} (h1 : rgOk src rg) (h2 : a ≤ rg.1) (h3 : rg.2 ≤ b)
     (hv : Res src rg.1 rg.2 v) :
-    okX src (some (a, b)) (.node "Keyword" "keywords" true (some rg)
+    ok src (some (a, b)) (.node "Keyword" "keywords" true (some rg)
       [.node v.kind "value" false (some v.range) v.children]) = true := by
-  rw [okX, okListX, okListX]
+  rw [ok, okList, okList]
   simp only [Bool.and_eq_true, Option.orElse, Bool.and_true]
-  refine ⟨⟨⟨h1, ?_⟩, by simp [sibsOk]⟩, hv.toOkX "value" false rg.1 rg.2 (Nat.le_refl _) (Nat.le_refl _)⟩
-  simp only [enclOkX, Bool.or_eq_true, Bool.and_eq_true, decide_eq_true_eq]
+  refine ⟨⟨⟨h1, ?_⟩, by simp [sibsOk]⟩, hv.toOk "value" false rg.1 rg.2 (Nat.le_refl _) (Nat.le_refl _)⟩
+  simp only [enclOk, Bool.or_eq_true, Bool.and_eq_true, decide_eq_true_eq]
   right; omega
 
 theorem sibsOk_kwTrees (k : String) : ∀ (ks : List RKeyword) (lo hi : Nat),
@@ -151,15 +151,15 @@ theorem sibsOk_kwTrees (k : String) : ∀ (ks : List RKeyword) (lo hi : Nat),
     have := (h4.2 hp.2.1).2.1
     split <;> simp <;> omega
 
-theorem okListX_kwTrees (a b : Nat) : ∀ (ks : List RKeyword) (lo hi : Nat),
-    SeqG (RSK src) lo hi ks → plainKws ks = true → a ≤ lo → hi ≤ b → okListX src (some (a, b)) (kwTrees ks) = true
-  | [], _, _, _, _, _, _ => by simp [kwTrees, okListX]
+theorem okList_kwTrees (a b : Nat) : ∀ (ks : List RKeyword) (lo hi : Nat),
+    SeqG (RSK src) lo hi ks → plainKws ks = true → a ≤ lo → hi ≤ b → okList src (some (a, b)) (kwTrees ks) = true
+  | [], _, _, _, _, _, _ => by simp [kwTrees, okList]
   | .mk rg ar v :: ks, lo, hi, ⟨m, h1, h2, h3⟩, hp, ha, hb => by
     simp only [plainKws, Bool.and_eq_true] at hp
-    simp only [kwTrees, okListX, Bool.and_eq_true]
+    simp only [kwTrees, okList, Bool.and_eq_true]
     obtain ⟨g1, g2, g3, g4⟩ := h1.2 hp.1
     have := h1.1
-    exact ⟨kw_node_ok g1 (by omega) (by omega) g4, okListX_kwTrees a b ks m hi h3 hp.2 (by omega) hb⟩
+    exact ⟨kw_node_ok g1 (by omega) (by omega) g4, okList_kwTrees a b ks m hi h3 hp.2 (by omega) hb⟩
 
 theorem allSlot_compTrees : ∀ gs : List RComp, AllSlot "generators" (compTrees gs)
   | [] => by simp [AllSlot, compTrees]
@@ -187,29 +187,29 @@ theorem sibsOk_compTrees (k : String) : ∀ (gs : List RComp) (lo hi : Nat),
 theorem comp_node_ok {rg : Rg} {t i : RExpr} {ifs : List RExpr} {a b : Nat} (h1 : rgOk src rg) (h2 : a ≤ rg.1)
     (h3 : rg.2 ≤ b) (ht : Res src rg.1 rg.2 t) (hi : Res src rg.1 rg.2 i) {l h : Nat}
     (hs : SeqG (Res src) l h ifs) (hl : rg.1 ≤ l) (hh : h ≤ rg.2) :
-    okX src (some (a, b)) (.node "Comprehension" "generators" true (some rg)
+    ok src (some (a, b)) (.node "Comprehension" "generators" true (some rg)
       (.node t.kind "target" false (some t.range) t.children :: .node i.kind "iter" false (some i.range) i.children ::
         toTrees "ifs" ifs)) = true := by
-  rw [okX, okListX, okListX]
+  rw [ok, okList, okList]
   simp only [Bool.and_eq_true, Option.orElse]
-  refine ⟨⟨⟨h1, ?_⟩, ?_⟩, ht.toOkX "target" false rg.1 rg.2 (Nat.le_refl _) (Nat.le_refl _),
-    hi.toOkX "iter" false rg.1 rg.2 (Nat.le_refl _) (Nat.le_refl _),
-    okListX_toTrees src "ifs" rg.1 rg.2 ifs l h hs hl hh⟩
-  · simp only [enclOkX, Bool.or_eq_true, Bool.and_eq_true, decide_eq_true_eq]
+  refine ⟨⟨⟨h1, ?_⟩, ?_⟩, ht.toOk "target" false rg.1 rg.2 (Nat.le_refl _) (Nat.le_refl _),
+    hi.toOk "iter" false rg.1 rg.2 (Nat.le_refl _) (Nat.le_refl _),
+    okList_toTrees src "ifs" rg.1 rg.2 ifs l h hs hl hh⟩
+  · simp only [enclOk, Bool.or_eq_true, Bool.and_eq_true, decide_eq_true_eq]
     right; omega
   · rw [sibsOk_cons_notList _ _ _ rfl, sibsOk_cons_notList _ _ _ rfl]
     exact sibsOk_toTrees src _ "ifs" ifs l h hs
 
-theorem okListX_compTrees (a b : Nat) : ∀ (gs : List RComp) (lo hi : Nat),
-    SeqG (RSC src) lo hi gs → plainComps gs = true → a ≤ lo → hi ≤ b → okListX src (some (a, b)) (compTrees gs) = true
-  | [], _, _, _, _, _, _ => by simp [compTrees, okListX]
+theorem okList_compTrees (a b : Nat) : ∀ (gs : List RComp) (lo hi : Nat),
+    SeqG (RSC src) lo hi gs → plainComps gs = true → a ≤ lo → hi ≤ b → okList src (some (a, b)) (compTrees gs) = true
+  | [], _, _, _, _, _, _ => by simp [compTrees, okList]
   | .mk rg t i ifs ar :: gs, lo, hi, ⟨m, h1, h2, h3⟩, hp, ha, hb => by
     simp only [plainComps, Bool.and_eq_true] at hp
-    simp only [compTrees, okListX, Bool.and_eq_true]
+    simp only [compTrees, okList, Bool.and_eq_true]
     obtain ⟨g1, g2, g3, g4, g5, l, h, g6, g7, g8⟩ := h1.2 (by simp [hp.1])
     have := h1.1
     exact ⟨comp_node_ok g1 (by omega) (by omega) g4 g5 g6 g7 g8,
-      okListX_compTrees a b gs m hi h3 hp.2 (by omega) hb⟩
+      okList_compTrees a b gs m hi h3 hp.2 (by omega) hb⟩
 
 /-! keys and values of a dict display: two list fields -/
 
@@ -308,17 +308,19 @@ theorem argChildren_eq (po ar : List RParam) (va : Option (Rg × Ident)) (ko : L
   simp only [argItems, List.map_append, paramTrees_eq]
   cases va <;> cases kw <;> simp [PItem.tree]
 
-/-- a parameter item in a window: its range is a token span in the window; the `Arg` has the same range; a default
-    value is a fine tree somewhere -/
+/-- a parameter item in a window (for `plain` items): its range is a well-formed range in the window; the `Arg` is a
+    well-formed range inside it; a default value is a fine tree inside it (the `ArgWithDefault` runs from the name
+    to the end of its default since the /repo fix of `ParameterDef`) -/
 def RSI (src : List Nat) (lo hi : Nat) (x : PItem) : Prop :=
-  lo ≤ hi ∧ rgOk src x.range ∧ lo ≤ x.range.1 ∧ x.range.2 ≤ hi ∧
+  lo ≤ hi ∧ (x.plain = true → rgOk src x.range ∧ lo ≤ x.range.1 ∧ x.range.2 ≤ hi ∧
     (match x with
-     | .param _ (.mk rg drg _ d) => drg = rg ∧ (plainO d = true → ∀ e, d = some e → ∃ a b, Res src a b e)
-     | .arg _ _ => True)
+     | .param _ (.mk rg drg _ d) =>
+       rgOk src drg ∧ rg.1 ≤ drg.1 ∧ drg.2 ≤ rg.2 ∧ ∀ e, d = some e → Res src rg.1 rg.2 e
+     | .arg _ _ => True))
 
 theorem windowed_rsi (src : List Nat) : Windowed (RSI src) :=
-  ⟨fun {lo hi lo' hi' x} h a b => ⟨by have := h.1; omega, h.2.1, by have := h.2.2.1; omega,
-      by have := h.2.2.2.1; omega, h.2.2.2.2⟩, fun h => h.1⟩
+  ⟨fun {lo hi lo' hi' x} h a b => ⟨by have := h.1; omega, fun hp => by
+      obtain ⟨h1, h2, h3, h4⟩ := h.2 hp; exact ⟨h1, by omega, by omega, h4⟩⟩, fun h => h.1⟩
 
 theorem rsi_relabel {lo hi : Nat} {s s' : String} {p : RParam} (h : RSI src lo hi (.param s p)) :
     RSI src lo hi (.param s' p) := by cases p; exact h
@@ -335,58 +337,59 @@ theorem item_range (x : PItem) : x.tree.range = some x.range := by
 
 /-- items in consecutive windows are ordered siblings, whatever their fields -/
 theorem sibsOk_items (k : String) : ∀ (xs : List PItem) (lo hi : Nat), SeqG (RSI src) lo hi xs →
-    sibsOk k (xs.map PItem.tree) = true
-  | [], _, _, _ => by simp [sibsOk]
-  | [_], _, _, _ => by simp [sibsOk]
-  | x :: y :: xs, lo, hi, ⟨m, h1, _, h3⟩ => by
-    have ih := sibsOk_items k (y :: xs) m hi h3
+    (∀ x ∈ xs, x.plain = true) → sibsOk k (xs.map PItem.tree) = true
+  | [], _, _, _, _ => by simp [sibsOk]
+  | [_], _, _, _, _ => by simp [sibsOk]
+  | x :: y :: xs, lo, hi, ⟨m, h1, _, h3⟩, hp => by
+    have ih := sibsOk_items k (y :: xs) m hi h3 (fun z hz => hp z (by simp [hz]))
     obtain ⟨m2, h4, _, _⟩ := h3
     simp only [List.map_cons] at ih ⊢
     simp only [sibsOk, ih, Bool.and_true, item_range]
-    have := h1.2.2.2.1
-    have := h4.2.2.1
+    have := (h1.2 (hp x (by simp))).2.2.1
+    have := (h4.2 (hp y (by simp))).2.1
     split <;> simp <;> omega
 
-theorem item_okX {x : PItem} {lo hi a b : Nat} (h : RSI src lo hi x) (hp : x.plain = true) (ha : a ≤ lo) (hb : hi ≤ b) :
-    okX src (some (a, b)) x.tree = true := by
-  obtain ⟨h0, h1, h2, h3, h4⟩ := h
+theorem item_ok {x : PItem} {lo hi a b : Nat} (h : RSI src lo hi x) (hp : x.plain = true) (ha : a ≤ lo) (hb : hi ≤ b) :
+    ok src (some (a, b)) x.tree = true := by
+  obtain ⟨h0, hh⟩ := h
+  obtain ⟨h1, h2, h3, h4⟩ := hh hp
   cases x with
   | arg s v =>
     obtain ⟨⟨v1, v2⟩, vn⟩ := v
     simp only [PItem.range] at h1 h2 h3
-    simp only [PItem.tree, argTree, okX, okListX, Bool.and_eq_true, Bool.and_true, Option.orElse]
+    simp only [PItem.tree, argTree, ok, okList, Bool.and_eq_true, Bool.and_true, Option.orElse]
     refine ⟨⟨h1, ?_⟩, by simp [sibsOk]⟩
-    simp only [enclOkX, Bool.or_eq_true, Bool.and_eq_true, decide_eq_true_eq]
+    simp only [enclOk, Bool.or_eq_true, Bool.and_eq_true, decide_eq_true_eq]
     right; omega
   | param s p =>
-    obtain ⟨rg, drg, n, d⟩ := p
+    obtain ⟨⟨r1, r2⟩, ⟨d1, d2⟩, n, d⟩ := p
     simp only [PItem.range] at h1 h2 h3
     simp only [PItem.plain] at hp
-    obtain ⟨rfl, h5⟩ := h4
+    obtain ⟨g1, g2, g3, h5⟩ := h4
     simp only [PItem.tree]
-    rw [okX, okListX, okX, okListX]
+    rw [ok, okList, ok, okList]
     simp only [Bool.and_eq_true, Option.orElse, Bool.and_true]
-    refine ⟨⟨⟨h1, ?_⟩, ?_⟩, ⟨⟨h1, ?_⟩, by simp [sibsOk]⟩, ?_⟩
-    · simp only [enclOkX, Bool.or_eq_true, Bool.and_eq_true, decide_eq_true_eq]
+    refine ⟨⟨⟨h1, ?_⟩, ?_⟩, ⟨⟨g1, ?_⟩, by simp [sibsOk]⟩, ?_⟩
+    · simp only [enclOk, Bool.or_eq_true, Bool.and_eq_true, decide_eq_true_eq]
       right; omega
     · rw [sibsOk_cons_notList _ _ _ rfl]
       cases d <;> simp [optTree, sibsOk]
-    · simp only [enclOkX, Bool.or_eq_true, Bool.and_eq_true, decide_eq_true_eq]
-      right; exact ⟨Nat.le_refl _, Nat.le_refl _⟩
+    · simp only [enclOk, Bool.or_eq_true, Bool.and_eq_true, decide_eq_true_eq]
+      right; exact ⟨g2, g3⟩
     · cases d with
-      | none => simp [optTree, okListX]
+      | none => simp [optTree, okList]
       | some e =>
-        obtain ⟨a', b', he⟩ := h5 hp e rfl
-        simp [optTree, okListX, he.toOkX_default]
+        have he := h5 e rfl
+        simp [optTree, okList, he.toOk "default" false r1 r2 (Nat.le_refl _) (Nat.le_refl _)]
 
-theorem okListX_items (a b : Nat) : ∀ (xs : List PItem) (lo hi : Nat), SeqG (RSI src) lo hi xs →
-    (∀ x ∈ xs, x.plain = true) → a ≤ lo → hi ≤ b → okListX src (some (a, b)) (xs.map PItem.tree) = true
-  | [], _, _, _, _, _, _ => by simp [okListX]
+theorem okList_items (a b : Nat) : ∀ (xs : List PItem) (lo hi : Nat), SeqG (RSI src) lo hi xs →
+    (∀ x ∈ xs, x.plain = true) → a ≤ lo → hi ≤ b → okList src (some (a, b)) (xs.map PItem.tree) = true
+  | [], _, _, _, _, _, _ => by simp [okList]
   | x :: xs, lo, hi, ⟨m, h1, h2, h3⟩, hp, ha, hb => by
-    simp only [List.map_cons, okListX, Bool.and_eq_true]
+    simp only [List.map_cons, okList, Bool.and_eq_true]
     have := h1.1
-    exact ⟨item_okX h1 (hp x (by simp)) ha (by omega),
-      okListX_items a b xs m hi h3 (fun y hy => hp y (by simp [hy])) (by omega) hb⟩
+    exact ⟨item_ok h1 (hp x (by simp)) ha (by omega),
+      okList_items a b xs m hi h3 (fun y hy => hp y (by simp [hy])) (by omega) hb⟩
 
 theorem plainParams_items (s : String) : ∀ ps : List RParam, plainParams ps = true →
     ∀ x ∈ ps.map (PItem.param s), x.plain = true
@@ -416,11 +419,11 @@ variable {a b lo hi : Nat}
 
 theorem rs_name {id} (hrg : rgOk src (a, b)) (h1 : lo ≤ a) (h2 : b ≤ hi) : RS src lo hi (.name (a, b) id) :=
   ⟨by have := rgOk_le hrg; omega, fun _ => Res.intro' (a, b) rfl hrg h1 h2 (by simp [RExpr.children, sibsOk, Tree.inList])
-    (by simp [RExpr.children, okListX])⟩
+    (by simp [RExpr.children, okList])⟩
 
 theorem rs_const {c} (hrg : rgOk src (a, b)) (h1 : lo ≤ a) (h2 : b ≤ hi) : RS src lo hi (.const (a, b) c) :=
   ⟨by have := rgOk_le hrg; omega, fun _ => Res.intro' (a, b) rfl hrg h1 h2 (by simp [RExpr.children, sibsOk, Tree.inList])
-    (by simp [RExpr.children, okListX])⟩
+    (by simp [RExpr.children, okList])⟩
 
 /-- nodes with one child -/
 theorem rs_unaryOp {op e} (hrg : rgOk src (a, b)) (h1 : lo ≤ a) (h2 : b ≤ hi) (he : RS src a b e) :
@@ -428,46 +431,46 @@ theorem rs_unaryOp {op e} (hrg : rgOk src (a, b)) (h1 : lo ≤ a) (h2 : b ≤ hi
   ⟨by have := rgOk_le hrg; omega, fun hp => by
     simp only [plain] at hp
     exact Res.intro' (a, b) rfl hrg h1 h2 (by simp [RExpr.children, sibsOk, Tree.inList])
-      (by simp [RExpr.children, okListX, (he.2 hp).toOkX])⟩
+      (by simp [RExpr.children, okList, (he.2 hp).toOk])⟩
 
 theorem rs_await {e} (hrg : rgOk src (a, b)) (h1 : lo ≤ a) (h2 : b ≤ hi) (he : RS src a b e) :
     RS src lo hi (.await (a, b) e) :=
   ⟨by have := rgOk_le hrg; omega, fun hp => by
     simp only [plain] at hp
     exact Res.intro' (a, b) rfl hrg h1 h2 (by simp [RExpr.children, sibsOk, Tree.inList])
-      (by simp [RExpr.children, okListX, (he.2 hp).toOkX])⟩
+      (by simp [RExpr.children, okList, (he.2 hp).toOk])⟩
 
 theorem rs_yieldFrom {e} (hrg : rgOk src (a, b)) (h1 : lo ≤ a) (h2 : b ≤ hi) (he : RS src a b e) :
     RS src lo hi (.yieldFrom (a, b) e) :=
   ⟨by have := rgOk_le hrg; omega, fun hp => by
     simp only [plain] at hp
     exact Res.intro' (a, b) rfl hrg h1 h2 (by simp [RExpr.children, sibsOk, Tree.inList])
-      (by simp [RExpr.children, okListX, (he.2 hp).toOkX])⟩
+      (by simp [RExpr.children, okList, (he.2 hp).toOk])⟩
 
 theorem rs_starred {e} (hrg : rgOk src (a, b)) (h1 : lo ≤ a) (h2 : b ≤ hi) (he : RS src a b e) :
     RS src lo hi (.starred (a, b) e) :=
   ⟨by have := rgOk_le hrg; omega, fun hp => by
     simp only [plain] at hp
     exact Res.intro' (a, b) rfl hrg h1 h2 (by simp [RExpr.children, sibsOk, Tree.inList])
-      (by simp [RExpr.children, okListX, (he.2 hp).toOkX])⟩
+      (by simp [RExpr.children, okList, (he.2 hp).toOk])⟩
 
 theorem rs_attribute {e n} (hrg : rgOk src (a, b)) (h1 : lo ≤ a) (h2 : b ≤ hi) (he : RS src a b e) :
     RS src lo hi (.attribute (a, b) e n) :=
   ⟨by have := rgOk_le hrg; omega, fun hp => by
     simp only [plain] at hp
     exact Res.intro' (a, b) rfl hrg h1 h2 (by simp [RExpr.children, sibsOk, Tree.inList])
-      (by simp [RExpr.children, okListX, (he.2 hp).toOkX])⟩
+      (by simp [RExpr.children, okList, (he.2 hp).toOk])⟩
 
 theorem rs_yield_none (hrg : rgOk src (a, b)) (h1 : lo ≤ a) (h2 : b ≤ hi) : RS src lo hi (.yield (a, b) none) :=
   ⟨by have := rgOk_le hrg; omega, fun _ => Res.intro' (a, b) rfl hrg h1 h2
-    (by simp [RExpr.children, optTree, sibsOk]) (by simp [RExpr.children, optTree, okListX])⟩
+    (by simp [RExpr.children, optTree, sibsOk]) (by simp [RExpr.children, optTree, okList])⟩
 
 theorem rs_yield_some {e} (hrg : rgOk src (a, b)) (h1 : lo ≤ a) (h2 : b ≤ hi) (he : RS src a b e) :
     RS src lo hi (.yield (a, b) (some e)) :=
   ⟨by have := rgOk_le hrg; omega, fun hp => by
     simp only [plain, plainO] at hp
     exact Res.intro' (a, b) rfl hrg h1 h2 (by simp [RExpr.children, optTree, sibsOk])
-      (by simp [RExpr.children, optTree, okListX, (he.2 hp).toOkX])⟩
+      (by simp [RExpr.children, optTree, okList, (he.2 hp).toOk])⟩
 
 /-- nodes with two or three children in different fields -/
 theorem rs_binOp {l op r} (hrg : rgOk src (a, b)) (h1 : lo ≤ a) (h2 : b ≤ hi) (hl : RS src a b l) (hr : RS src a b r) :
@@ -475,14 +478,14 @@ theorem rs_binOp {l op r} (hrg : rgOk src (a, b)) (h1 : lo ≤ a) (h2 : b ≤ hi
   ⟨by have := rgOk_le hrg; omega, fun hp => by
     simp only [plain, Bool.and_eq_true] at hp
     exact Res.intro' (a, b) rfl hrg h1 h2 (by simp [RExpr.children, sibsOk, Tree.inList])
-      (by simp [RExpr.children, okListX, (hl.2 hp.1).toOkX, (hr.2 hp.2).toOkX])⟩
+      (by simp [RExpr.children, okList, (hl.2 hp.1).toOk, (hr.2 hp.2).toOk])⟩
 
 theorem rs_subscript {v s} (hrg : rgOk src (a, b)) (h1 : lo ≤ a) (h2 : b ≤ hi) (hl : RS src a b v) (hr : RS src a b s) :
     RS src lo hi (.subscript (a, b) v s) :=
   ⟨by have := rgOk_le hrg; omega, fun hp => by
     simp only [plain, Bool.and_eq_true] at hp
     exact Res.intro' (a, b) rfl hrg h1 h2 (by simp [RExpr.children, sibsOk, Tree.inList])
-      (by simp [RExpr.children, okListX, (hl.2 hp.1).toOkX, (hr.2 hp.2).toOkX])⟩
+      (by simp [RExpr.children, okList, (hl.2 hp.1).toOk, (hr.2 hp.2).toOk])⟩
 
 /-- `NamedExpr`: the range ends where the value ends -/
 theorem rs_namedExpr {t v} (hrg : rgOk src (a, b)) (h1 : lo ≤ a) (h2 : b ≤ hi) (hl : RS src a b t) (hr : RS src a b v) :
@@ -490,14 +493,14 @@ theorem rs_namedExpr {t v} (hrg : rgOk src (a, b)) (h1 : lo ≤ a) (h2 : b ≤ h
   ⟨by have := rgOk_le hrg; omega, fun hp => by
     simp only [plain, Bool.and_eq_true] at hp
     exact Res.intro' (a, b) rfl hrg h1 h2 (by simp [RExpr.children, sibsOk, Tree.inList])
-      (by simp [RExpr.children, okListX, (hl.2 hp.1).toOkX, (hr.2 hp.2).toOkX])⟩
+      (by simp [RExpr.children, okList, (hl.2 hp.1).toOk, (hr.2 hp.2).toOk])⟩
 
 theorem rs_ifExp {t bd o} (hrg : rgOk src (a, b)) (h1 : lo ≤ a) (h2 : b ≤ hi) (ht : RS src a b t) (hb : RS src a b bd)
     (ho : RS src a b o) : RS src lo hi (.ifExp (a, b) t bd o) :=
   ⟨by have := rgOk_le hrg; omega, fun hp => by
     simp only [plain, Bool.and_eq_true] at hp
     exact Res.intro' (a, b) rfl hrg h1 h2 (by simp [RExpr.children, sibsOk, Tree.inList])
-      (by simp [RExpr.children, okListX, (ht.2 hp.1.1).toOkX, (hb.2 hp.1.2).toOkX, (ho.2 hp.2).toOkX])⟩
+      (by simp [RExpr.children, okList, (ht.2 hp.1.1).toOk, (hb.2 hp.1.2).toOk, (ho.2 hp.2).toOk])⟩
 
 /-- `Lambda`: the `Arguments` node carries `argsRg`; its children are the parameter items in source order -/
 theorem rs_lambda {argsRg : Rg} {po ar va ko kw bd} (hrg : rgOk src (a, b)) (h1 : lo ≤ a) (h2 : b ≤ hi)
@@ -509,19 +512,19 @@ theorem rs_lambda {argsRg : Rg} {po ar va ko kw bd} (hrg : rgOk src (a, b)) (h1 
     obtain ⟨⟨⟨p1, p2⟩, p3⟩, hb'⟩ := hp
     refine Res.intro' (a, b) rfl hrg h1 h2 (by simp [RExpr.children, sibsOk, Tree.inList]) ?_
     simp only [RExpr.children, argChildren_eq]
-    rw [okListX, okListX, okListX, okX]
+    rw [okList, okList, okList, ok]
     simp only [Bool.and_eq_true, Bool.and_true, Option.orElse]
-    refine ⟨⟨⟨⟨ha, ?_⟩, sibsOk_items _ _ l h hs⟩,
-      okListX_items argsRg.1 argsRg.2 _ l h hs (plain_argItems p1 p2 p3) hl hh⟩,
-      (hb.2 hb').toOkX "body" false a b (Nat.le_refl _) (Nat.le_refl _)⟩
-    simp only [enclOkX, Bool.or_eq_true, Bool.and_eq_true, decide_eq_true_eq]
+    refine ⟨⟨⟨⟨ha, ?_⟩, sibsOk_items _ _ l h hs (plain_argItems p1 p2 p3)⟩,
+      okList_items argsRg.1 argsRg.2 _ l h hs (plain_argItems p1 p2 p3) hl hh⟩,
+      (hb.2 hb').toOk "body" false a b (Nat.le_refl _) (Nat.le_refl _)⟩
+    simp only [enclOk, Bool.or_eq_true, Bool.and_eq_true, decide_eq_true_eq]
     right; omega⟩
 
-theorem okListX_optTree {s : String} {x : Option RExpr} (hx : ∀ e, x = some e → Res src a b e) :
-    okListX src (some (a, b)) (optTree s x) = true := by
+theorem okList_optTree {s : String} {x : Option RExpr} (hx : ∀ e, x = some e → Res src a b e) :
+    okList src (some (a, b)) (optTree s x) = true := by
   cases x with
-  | none => simp [optTree, okListX]
-  | some e => simp [optTree, okListX, (hx e rfl).toOkX]
+  | none => simp [optTree, okList]
+  | some e => simp [optTree, okList, (hx e rfl).toOk]
 
 /-- `Slice`: three optional children in different fields -/
 theorem rs_slice {x y z : Option RExpr} (hrg : rgOk src (a, b)) (h1 : lo ≤ a) (h2 : b ≤ hi)
@@ -532,8 +535,8 @@ theorem rs_slice {x y z : Option RExpr} (hrg : rgOk src (a, b)) (h1 : lo ≤ a) 
     refine Res.intro' (a, b) rfl hrg h1 h2 ?_ ?_
     · simp only [RExpr.children]
       cases x <;> cases y <;> cases z <;> simp [optTree, sibsOk, Tree.slot, Tree.inList]
-    · simp only [RExpr.children, okListX_append, Bool.and_eq_true]
-      refine ⟨⟨okListX_optTree ?_, okListX_optTree ?_⟩, okListX_optTree ?_⟩
+    · simp only [RExpr.children, okList_append, Bool.and_eq_true]
+      refine ⟨⟨okList_optTree ?_, okList_optTree ?_⟩, okList_optTree ?_⟩
       · intro e he; subst he; exact (hx e rfl).2 hp.1.1
       · intro e he; subst he; exact (hy e rfl).2 hp.1.2
       · intro e he; subst he; exact (hz e rfl).2 hp.2⟩
@@ -548,7 +551,7 @@ theorem rs_listLike (mk : Rg → List RExpr → RExpr) (k s : String)
     rw [hp] at hp'
     have hs' := seq_plain hs hp'
     exact Res.intro' (a, b) (hr _ _) hrg h1 h2 (by rw [hk, hc]; exact sibsOk_toTrees src _ s es l h hs')
-      (by rw [hc]; exact okListX_toTrees src s a b es l h hs' hl hh)⟩
+      (by rw [hc]; exact okList_toTrees src s a b es l h hs' hl hh)⟩
 
 theorem rs_boolOp {op es} (hrg : rgOk src (a, b)) (h1 : lo ≤ a) (h2 : b ≤ hi) {l h : Nat}
     (hs : SeqG (RS src) l h es) (hl : a ≤ l) (hh : h ≤ b) : RS src lo hi (.boolOp (a, b) op es) :=
@@ -580,8 +583,8 @@ theorem rs_compare {lft ops cs} (hrg : rgOk src (a, b)) (h1 : lo ≤ a) (h2 : b 
     · simp only [RExpr.children]
       rw [sibsOk_cons_notList _ _ _ rfl]
       exact sibsOk_toTrees src _ _ cs l h hs'
-    · simp only [RExpr.children, okListX, Bool.and_eq_true]
-      exact ⟨(hl.2 hp.1).toOkX _ _ a b (Nat.le_refl _) (Nat.le_refl _), okListX_toTrees src _ a b cs l h hs' hl' hh⟩⟩
+    · simp only [RExpr.children, okList, Bool.and_eq_true]
+      exact ⟨(hl.2 hp.1).toOk _ _ a b (Nat.le_refl _) (Nat.le_refl _), okList_toTrees src _ a b cs l h hs' hl' hh⟩⟩
 
 /-- `Call`: the callee, the positional arguments and the keywords — two list fields whose elements interleave
     in the source, each in consecutive windows -/
@@ -597,9 +600,9 @@ theorem rs_call {fn as ks} (hrg : rgOk src (a, b)) (h1 : lo ≤ a) (h2 : b ≤ h
         sibsOk_append_ne _ "args" "keywords" (by decide) _ _ (allSlot_toTrees _ _) (allSlot_kwTrees _)]
       simp only [Bool.and_eq_true]
       exact ⟨sibsOk_toTrees src _ _ as l h hs', sibsOk_kwTrees _ ks l' h' hk hp.2⟩
-    · simp only [RExpr.children, okListX, okListX_append, Bool.and_eq_true]
-      exact ⟨(hf.2 hp.1.1).toOkX _ _ a b (Nat.le_refl _) (Nat.le_refl _),
-        okListX_toTrees src _ a b as l h hs' hl hh, okListX_kwTrees a b ks l' h' hk hp.2 hl' hh'⟩⟩
+    · simp only [RExpr.children, okList, okList_append, Bool.and_eq_true]
+      exact ⟨(hf.2 hp.1.1).toOk _ _ a b (Nat.le_refl _) (Nat.le_refl _),
+        okList_toTrees src _ a b as l h hs' hl hh, okList_kwTrees a b ks l' h' hk hp.2 hl' hh'⟩⟩
 
 /-- `Dict`: keys and values are two list fields -/
 theorem rs_dict {is} (hrg : rgOk src (a, b)) (h1 : lo ≤ a) (h2 : b ≤ hi) {l h : Nat}
@@ -614,8 +617,8 @@ theorem rs_dict {is} (hrg : rgOk src (a, b)) (h1 : lo ≤ a) (h2 : b ≤ hi) {l 
         keyTrees_eq, valueTrees_eq]
       simp only [Bool.and_eq_true]
       exact ⟨sibsOk_toTrees src _ _ _ l h hk, sibsOk_toTrees src _ _ _ l h hv⟩
-    · simp only [RExpr.children, okListX_append, Bool.and_eq_true, keyTrees_eq, valueTrees_eq]
-      exact ⟨okListX_toTrees src _ a b _ l h hk hl hh, okListX_toTrees src _ a b _ l h hv hl hh⟩⟩
+    · simp only [RExpr.children, okList_append, Bool.and_eq_true, keyTrees_eq, valueTrees_eq]
+      exact ⟨okList_toTrees src _ a b _ l h hk hl hh, okList_toTrees src _ a b _ l h hv hl hh⟩⟩
 
 /-- comprehensions: the element(s), then the `Comprehension` nodes in consecutive windows -/
 theorem rs_compLike (mk : Rg → RExpr → List RComp → RExpr) (s : String)
@@ -630,8 +633,8 @@ theorem rs_compLike (mk : Rg → RExpr → List RComp → RExpr) (s : String)
     · rw [hc, sibsOk_cons_notList _ _ _ rfl]
       exact sibsOk_compTrees _ gs l h hs hp'.2
     · rw [hc]
-      simp only [okListX, Bool.and_eq_true]
-      exact ⟨(he.2 hp'.1).toOkX _ _ a b (Nat.le_refl _) (Nat.le_refl _), okListX_compTrees a b gs l h hs hp'.2 hl hh⟩⟩
+      simp only [okList, Bool.and_eq_true]
+      exact ⟨(he.2 hp'.1).toOk _ _ a b (Nat.le_refl _) (Nat.le_refl _), okList_compTrees a b gs l h hs hp'.2 hl hh⟩⟩
 
 theorem rs_listComp {e gs} (hrg : rgOk src (a, b)) (h1 : lo ≤ a) (h2 : b ≤ hi) (he : RS src a b e) {l h : Nat}
     (hs : SeqG (RSC src) l h gs) (hl : a ≤ l) (hh : h ≤ b) : RS src lo hi (.listComp (a, b) e gs) :=
@@ -653,9 +656,9 @@ theorem rs_dictComp {k v gs} (hrg : rgOk src (a, b)) (h1 : lo ≤ a) (h2 : b ≤
     · simp only [RExpr.children]
       rw [sibsOk_cons_notList _ _ _ rfl, sibsOk_cons_notList _ _ _ rfl]
       exact sibsOk_compTrees _ gs l h hs hp.2
-    · simp only [RExpr.children, okListX, Bool.and_eq_true]
-      exact ⟨(hk.2 hp.1.1).toOkX _ _ a b (Nat.le_refl _) (Nat.le_refl _),
-        (hv.2 hp.1.2).toOkX _ _ a b (Nat.le_refl _) (Nat.le_refl _), okListX_compTrees a b gs l h hs hp.2 hl hh⟩⟩
+    · simp only [RExpr.children, okList, Bool.and_eq_true]
+      exact ⟨(hk.2 hp.1.1).toOk _ _ a b (Nat.le_refl _) (Nat.le_refl _),
+        (hv.2 hp.1.2).toOk _ _ a b (Nat.le_refl _) (Nat.le_refl _), okList_compTrees a b gs l h hs hp.2 hl hh⟩⟩
 
 /-! building the items of the list fields -/
 
